@@ -523,7 +523,18 @@ impl Sim {
                     let ix = self.tr.emitted.len();
                     c.pkts.push(ix);
                     let conn = c.id;
-                    self.tr.emitted.push(Emitted { conn, pkt, tag, start, end, t: self.now, call: call_ix, first_call, calls_spanned: spanned.max(1), delivered_at: None });
+                    let pid_of = match &pkt {
+                        rf::Packet::Publish(p) if p.qos > 0 => p.pid,
+                        rf::Packet::Subscribe(s) => Some(s.pid),
+                        rf::Packet::Unsubscribe(u) => Some(u.pid),
+                        rf::Packet::Pubrel(a) => Some(a.pid),
+                        _ => None,
+                    };
+                    let id_reserved_after = match pid_of {
+                        Some(pid) => guarded(|| self.eng.snapshot()).ok().map(|sn| sn.allocated_packet_ids.iter().any(|(p, _)| *p == pid)),
+                        None => None,
+                    };
+                    self.tr.emitted.push(Emitted { conn, pkt, tag, start, end, t: self.now, call: call_ix, first_call, calls_spanned: spanned.max(1), delivered_at: None, id_reserved_after });
                     self.tr.evs.push(Ev::Emit { ix });
                 }
                 Err(rf::DecodeError::Incomplete) => return,
@@ -1025,11 +1036,12 @@ impl Sim {
         let unsub_fail: [u8; 5] = [0x80, 0x83, 0x87, 0x8F, 0x91];
         let (pkt, reason, reasons): (rf::Packet, u8, Vec<u8>) = match p.type_code {
             4 => {
-                let r = if fail { pub_fail[(sel + 3) % pub_fail.len()] } else { 0 };
+                // "No matching subscribers" (0x10) is a success code of PUBACK / PUBREC in MQTT 5
+                let r = if fail { pub_fail[(sel + 3) % pub_fail.len()] } else if v5 && sel % 4 == 3 { 0x10 } else { 0 };
                 (rf::Packet::Puback(rf::Ack { pid: p.pid, reason: r, reason_string: nonce.clone(), user_props: vec![] }), r, vec![])
             }
             5 => {
-                let r = if fail { pub_fail[(sel + 2) % pub_fail.len()] } else { 0 };
+                let r = if fail { pub_fail[(sel + 2) % pub_fail.len()] } else if v5 && sel % 3 == 2 { 0x10 } else { 0 };
                 (rf::Packet::Pubrec(rf::Ack { pid: p.pid, reason: r, reason_string: nonce.clone(), user_props: vec![] }), r, vec![])
             }
             6 => (rf::Packet::Pubrel(rf::Ack { pid: p.pid, reason: 0, reason_string: None, user_props: vec![] }), 0, vec![]),
